@@ -121,6 +121,9 @@ def xp(e) -> str:
         return f'let $v{e[1]} := {wrap(e[2])} return {wrap(e[3])}'
     if k == 'fn':
         return 'function(' + ', '.join(f'$v{p}' for p in e[2]) + ') { ' + xp(e[3]) + ' }'
+    if k == 'tfn':
+        ps = ', '.join(f'$v{p} as {xty(t)}' for p, t in zip(e[2], e[3]))
+        return f'function({ps}) as {xty(e[4])} {{ {xp(e[5])} }}'
     if k == 'named':
         # both spellings of a named function reference (EQName with and without prefix)
         n = ARITY.get(e[1], 1)
@@ -151,6 +154,15 @@ def xp(e) -> str:
     raise ValueError(k)
 
 
+XTY = {'item': 'item()', 'atomic': 'xs:anyAtomicType', 'integer': 'xs:integer', 'decimal': 'xs:decimal',
+       'double': 'xs:double', 'boolean': 'xs:boolean', 'func': 'function(*)'}
+
+
+def xty(t: str) -> str:
+    occ = t[-1] if t[-1] in '?*+' else ''
+    return XTY[t.rstrip('?*+')] + occ
+
+
 def wrap(e) -> str:
     return xp(e) if is_atomic(e) else f'({xp(e)})'
 
@@ -168,7 +180,7 @@ def seqarg(e) -> str:
 
 def funarg(e) -> str:
     # a bare function expression takes the raw-token shortcut of the HOFs; `par` forces evaluation
-    return xp(e) if e[0] in ('fn', 'var', 'par') else f'({xp(e)})'
+    return xp(e) if e[0] in ('fn', 'tfn', 'var', 'par') else f'({xp(e)})'
 
 
 def proto(e) -> str:
@@ -190,6 +202,8 @@ def proto(e) -> str:
             out.extend([k, str(e[1])]); go(e[2]); go(e[3])
         elif k == 'fn':
             out.extend(['fn', str(e[1]), str(len(e[2]))] + [str(p) for p in e[2]]); go(e[3])
+        elif k == 'tfn':
+            out.extend(['tfn', str(e[1]), str(len(e[2]))] + [str(p) for p in e[2]] + list(e[3]) + [e[4]]); go(e[5])
         elif k == 'named':
             out.extend(['named', e[1]])
         elif k == 'call':
@@ -229,6 +243,9 @@ def renumber(e):
         if k == 'fn':
             t = n[0]; n[0] += 1
             return ('fn', t, e[2], go(e[3]))
+        if k == 'tfn':
+            t = n[0]; n[0] += 1
+            return ('tfn', t, e[2], e[3], e[4], go(e[5]))
         if k == 'call':
             return ('call', go(e[1]), [None if a is None else go(a) for a in e[2]])
         if k == 'apply':
@@ -253,6 +270,8 @@ def size(e) -> int:
         return 1
     if k == 'fn':
         return 1 + size(e[3])
+    if k == 'tfn':
+        return 1 + size(e[5])
     if k == 'spart':
         return 1 + sum(size(a) for a in e[2])
     if k in ('call', 'apply'):
@@ -273,6 +292,8 @@ def names(e, acc: set):
         pass
     elif k == 'fn':
         acc.update(e[2]); names(e[3], acc)
+    elif k == 'tfn':
+        acc.update(e[2]); names(e[5], acc)
     elif k == 'spart':
         for a in e[2]:
             names(a, acc)
@@ -300,6 +321,8 @@ def wellformed(e) -> bool:
         return False
     if k == 'fn':
         return wellformed(e[3])
+    if k == 'tfn':
+        return wellformed(e[5])
     if k == 'spart':
         return all(wellformed(a) for a in e[2])
     if k in ('call', 'apply'):
@@ -316,7 +339,9 @@ def kinds(e, acc: set):
     acc.add(k)
     if k in ('lit', 'dlit', 'elit', 'var', 'named'):
         return acc
-    if k == 'fn':
+    if k == 'tfn':
+        acc.add('fn'); kinds(e[5], acc)
+    elif k == 'fn':
         kinds(e[3], acc)
     elif k == 'spart':
         for a in e[2]:
@@ -619,7 +644,46 @@ class Gen:
             ps.append(p)
             sc2 = self.bind(sc2, p, a)
         sc2['dot'] = None
-        return ('fn', 0, ps, self.gen(ret, sc2, d - 1))
+        body = self.gen(ret, sc2, d - 1)
+        if r.random() < 0.3:
+            # declared parameter and result types (function conversion rules)
+            self.tags.add('typed-fn')
+            tys = [self.annot(a, False) for a in args]
+            rt = self.annot(ret, True)
+            if self.noise and r.random() < self.noise * 2:
+                self.tags.add('noise:type')
+                wrong = r.choice(['boolean', 'func', 'integer', 'double+', 'item'])
+                if tys and r.random() < 0.6:
+                    tys[r.randrange(len(tys))] = wrong
+                else:
+                    rt = wrong
+            return ('tfn', 0, ps, tys, rt, body)
+        return ('fn', 0, ps, body)
+
+    def annot(self, t, result):
+        """a declared type that accepts every value of the generator's type t (the value may be
+        promoted: integer/decimal -> double only where the generator's type is already 'any numeric')"""
+        r = self.rng
+        if t == I:
+            return r.choice(['integer', 'integer', 'decimal', 'atomic', 'item', 'integer?', 'item*', 'atomic+'])
+        if t == N:
+            return r.choice(['atomic', 'item', 'double', 'atomic?'])
+        if t == A:
+            return r.choice(['atomic', 'item'])
+        if t == B:
+            return r.choice(['boolean', 'boolean', 'atomic', 'item'])
+        if is_fun(t):
+            return r.choice(['func', 'func', 'item', 'func?', 'func*', 'func+'])
+        if is_seq(t):
+            el = t[1]
+            if el == I:
+                return r.choice(['integer*', 'decimal*', 'atomic*', 'item*'])
+            if el == N:
+                return r.choice(['atomic*', 'item*', 'double*'])
+            if el in (A, B):
+                return r.choice(['atomic*', 'item*'])
+            return r.choice(['func*', 'item*'])
+        return 'item*'
 
     def seqexpr(self, t, sc, d):
         """a sequence argument: sometimes a bare (lazily consumed) `a ! b`"""
@@ -1238,6 +1302,19 @@ CORPUS = [
     ('sortK', seq(L(1), L(2), L(3)), fn([0], ('eq', V(0), L(1)))),
     ('sortK', seq(L(1), L(2), L(3)), fn([0], ('cat', ('gt', V(0), L(1)), V(0)))),
     ('sortK', seq(L(1), L(2)), fn([0], ('ite', ('eq', V(0), L(1)), ('tt',), L(0)))),
+    # typed inline functions: function conversion rules at the call, for the result, at partial application
+    ('call', ('call', ('tfn', 0, [1, 2], ['integer', 'double'], 'item*', ('cat', V(1), V(2))), [None, L(2)]), [L(1)]),
+    ('call', ('tfn', 0, [1, 2], ['integer', 'double'], 'item*', ('cat', V(1), V(2))), [None, ('tt',)]),
+    ('call', ('tfn', 0, [1], ['atomic'], 'boolean', ('tt',)), [seq(L(1), L(2))]),
+    ('call', ('tfn', 0, [1], ['atomic+'], 'boolean', ('tt',)), [('emp',)]),
+    ('call', ('tfn', 0, [1], ['atomic'], 'item*', V(1)), [('named', 'abs')]),
+    ('call', ('tfn', 0, [1], ['func*'], 'integer', ('call', ('named', 'count'), [V(1)])), [('named', 'abs')]),
+    ('call', ('tfn', 0, [1], ['func?'], 'integer', ('call', ('named', 'count'), [V(1)])), [('named', 'abs')]),
+    ('call', ('tfn', 0, [1], ['double*'], 'item*', V(1)), [seq(L(1), ('dlit', 2), ('elit', 3))]),
+    ('call', ('tfn', 0, [1], ['decimal*'], 'item*', V(1)), [seq(L(1), ('elit', 2))]),
+    ('call', ('tfn', 0, [1], ['item*'], 'integer', V(1)), [('named', 'abs')]),
+    ('call', ('tfn', 0, [1], ['item*'], 'double', V(1)), [L(1)]),
+    ('forEach', seq(L(1), L(2)), ('tfn', 0, [1], ['boolean'], 'item*', V(1))),
     # F16h: predicate result as a one-item sequence
     ('filter', seq(L(1), L(2), L(3)), fn([0], ('let', 1, V(0), ('gt', V(1), L(1))))),
     # arity
@@ -1359,6 +1436,11 @@ def subterms(e):
     if k == 'fn':
         for b in subterms(e[3]):
             yield ('fn', e[1], e[2], b)
+        return
+    if k == 'tfn':
+        yield ('fn', e[1], e[2], e[5])
+        for b in subterms(e[5]):
+            yield ('tfn', e[1], e[2], e[3], e[4], b)
         return
     kids = []
     if k == 'spart':
